@@ -394,7 +394,7 @@ def _worker(item):
 
 def run(rec, tier, seed):
     grids = GRIDS_Q + GRIDS_T[3:5] if tier == 'quick' else GRIDS_T
-    nsig = 40 if tier == 'quick' else 60
+    nsig = 40 if tier == 'quick' else 120
     params = {k: list(v) for k, v in PARAMS.items()}
     if seed:
         phi = 0.6180339887498949
@@ -412,7 +412,7 @@ def run(rec, tier, seed):
     for name in CLS:
         items.append(('multi', name, len(PARAMS[name])))
         for p in params[name]:
-            items.append(('hist', name, p, 3 if tier == 'quick' else 5))
+            items.append(('hist', name, p, 3 if tier == 'quick' else 6))
             items.append(('template', name, p))
     lat = [round(0.5 + 0.1 * i, 1) for i in range(36)]
     if tier == 'quick':
@@ -425,7 +425,7 @@ def run(rec, tier, seed):
     core.pmap(_worker, items, rec, chunksize=2)
     rec.note('alphabets', {'classes': list(CLS), 'params': params, 'grids': grids, 'sigmas_per_grid': 'm*dr for m=2..%d plus 1.03, 2.57' % (nsig + 1),
                            'diameter_lattice': [lat[0], lat[-1], 0.1],
-                           'history_ops': HIST_OPS, 'history_grids': HIST_GRIDS, 'history_depth': 3 if tier == 'quick' else 5, 'history_start_sigma': [None, 1.1]})
+                           'history_ops': HIST_OPS, 'history_grids': HIST_GRIDS, 'history_depth': 3 if tier == 'quick' else 6, 'history_start_sigma': [None, 1.1]})
     rec.sample({'kind': 'hist', 'cls': 'WCA', 'params': {'epsilon': 0.5}, 'start': 1.1, 'ops': ['ev:g1', 'sig:0.9', 'ev:g1']})
     rec.sample({'kind': 'eval', 'cls': 'HCLJ', 'params': {'epsilon': 0.5}, 'grid': [128, 0.1], 'sigma': 1.2})
     rec.sample({'kind': 'wire', 'cls': 'EXP', 'params': {'epsilon': 0.3, 'alpha': 0.5}, 'grid': [128, 0.1], 'diam': [1.0, 1.4], 'kT': 1.7})
